@@ -27,9 +27,12 @@ CHECKS = {
     "C18": {
         "quick": [
             {"name": LEDGER + "ZZ_C18_Seq3", "reach": ["C18 end"], "bound": "2 keys x 3 operations out of {SetFinality,GetFinality,DelFinality,Set,Get,Del,Read,Commit,ImmutableLedgerAt.Read,Close+reopen}, symbolic values, then a full sweep of all views/versions and a final Commit"},
+            {"name": LEDGER + "ZZ_C18_Seq3b", "reach": ["C18 end"], "bound": "as Seq3, starting from a ledger whose version 1 already holds key 0"},
         ],
         "thorough": [
             {"name": LEDGER + "ZZ_C18_Seq3", "reach": ["C18 end"], "bound": "2 keys x 3 ops (+reopen)"},
+            {"name": LEDGER + "ZZ_C18_Seq3b", "reach": ["C18 end"], "bound": "2 keys x 3 ops (+reopen), pre-seeded version 1"},
+            {"name": LEDGER + "ZZ_C18_Seq4b", "reach": ["C18 end"], "bound": "2 keys x 4 ops, pre-seeded version 1", "validate": 40},
             {"name": LEDGER + "ZZ_C18_Seq4", "reach": ["C18 end"], "bound": "2 keys x 4 ops (+reopen)", "validate": 40},
         ],
         "bounds": "operation sequences of length 3 (quick) / 4 (thorough) over 2 keys, <=5 versions; item values symbolic int64",
